@@ -28,12 +28,22 @@ mcvars == <<fvars, req, res, hist, w0>>
 
 A == <<97>>  X == <<120>>  Btxt == <<98,46,116,120,116>>  Up == <<117,112>>  New == <<110,101,119>>
 SymLong == [i \in 1..255 |-> 120]
-Sigma == {A, DotDot, OneDot, <<>>, <<47>>, <<46,46,47,120>>, <<47,97,98,115>>, <<97,47,46,46,47,46,46>>,
-          <<120,0,121>>, SymLong, <<138,138>>}
+RootN == <<114,111,111,116>>
+(* the alphabet of DESIGN C07 ... *)
+Sigma0 == {A, DotDot, OneDot, <<>>, <<47>>, <<46,46,47,120>>, <<47,97,98,115>>, <<97,47,46,46,47,46,46>>,
+           <<120,0,121>>, SymLong, <<138,138>>}
+(* ... components that become dangerous only after a transformation a maintainer might add (NUL stripping, backslash
+   as separator, trailing blank / dot trimming) ... *)
+SigmaT == {<<46,0,46>>, <<46,46,0>>, <<0,46,46>>, <<46,46,92,120>>, <<46,46,32>>, <<46,46,46>>}
+(* ... and components aiming at SIBLINGS that share a name prefix with the root ("root-evil", "root.bak") *)
+RootBak == RootN \o <<46,98,97,107>>
+SigmaS == {<<46,46,47>> \o RootN \o <<45,101,118,105,108,47,120>>, <<46,46,47>> \o RootBak \o <<47,110>>}
+Sigma == Sigma0 \cup SigmaT \cup SigmaS
 
 (* ---- C07 sandbox --------------------------------------------------------------------------------------------- *)
-L1 == <<108,49>>  L2 == <<108,50>>  L3 == <<108,51>>  WW == <<87>>  RootN == <<114,111,111,116>>
+L1 == <<108,49>>  L2 == <<108,50>>  L3 == <<108,51>>  WW == <<87>>
 Config == <<99,111,110,102,105,103>>  Users == <<85,115,101,114,115>>
+UsersBak == Users \o <<46,98,97,107>>   UsersX == Users \o <<45,120>>
 SbxP == <<L1, L2, L3, WW>>
 Root07 == SbxP \o <<RootN>>
 Users07 == SbxP \o <<Config, Users>>
@@ -43,26 +53,30 @@ Ae == <<195,164>>   \* "a-umlaut" on disk
 RootTree07 == {
   [p |-> <<A>>, n |-> DirN], [p |-> <<A, A>>, n |-> DirN], [p |-> <<A, X>>, n |-> FileN(11)], [p |-> <<A, A, X>>, n |-> FileN(12)],
   [p |-> <<X>>, n |-> FileN(13)], [p |-> <<<<97,98,115>>>>, n |-> FileN(14)],
-  [p |-> <<Btxt>>, n |-> FileN(5)], [p |-> <<InfoPfx \o Btxt>>, n |-> InfoN(82, 3)], [p |-> <<RsrcPfx \o Btxt>>, n |-> FileN(7)],
+  [p |-> <<Btxt>>, n |-> FileN(5)], [p |-> <<InfoPfx \o Btxt>>, n |-> InfoN(82, 3, TEXT)], [p |-> <<RsrcPfx \o Btxt>>, n |-> FileN(7)],
   [p |-> <<<<112>> \o Incomplete>>, n |-> FileN(9)], [p |-> <<Ae>>, n |-> FileN(8)] }
 Canaries07 == {SbxP \o <<<<111,117,116>>>>, SbxP \o <<<<111,117,116>>, <<115>>>>, SbxP \o <<RootN \o <<45,101>>>>,
                SbxP \o <<InfoPfx \o RootN>>, SbxP \o <<RsrcPfx \o RootN>>, SbxP \o <<RootN \o Incomplete>>,
-               SbxP \o <<Config, <<115,46,121>>>>, <<L1, L2, L3, <<117,112>>>>}
+               SbxP \o <<Config, <<115,46,121>>>>, <<L1, L2, L3, <<117,112>>>>,
+               SbxP \o <<RootBak>>, SbxP \o <<RootBak, <<107>>>>, SbxP \o <<RootN \o <<45,101,118,105,108>>>>, SbxP \o <<RootN \o <<45,101,118,105,108>>, X>>,
+               SbxP \o <<Config, UsersX>>, SbxP \o <<Config, UsersX, <<107>>>>, SbxP \o <<Config, UsersBak>>,
+               SbxP \o <<Config, UsersBak, <<97,100,109,105,110>> \o Yaml>>}
 Tree07 ==
-  LET dirs == {<<L1>>, <<L1, L2>>, <<L1, L2, L3>>, SbxP, Root07, SbxP \o <<Config>>, Users07, SbxP \o <<<<111,117,116>>>>}
+  LET dirs == {<<L1>>, <<L1, L2>>, <<L1, L2, L3>>, SbxP, Root07, SbxP \o <<Config>>, Users07, SbxP \o <<<<111,117,116>>>>,
+               SbxP \o <<RootBak>>, SbxP \o <<RootN \o <<45,101,118,105,108>>>>, SbxP \o <<Config, UsersX>>, SbxP \o <<Config, UsersBak>>}
       files == (Canaries07 \ dirs) \cup {Users07 \o <<<<103,117,101,115,116>> \o Yaml>>, Users07 \o <<<<97,100,109,105,110>> \o Yaml>>}
       inroot == {Root07 \o e.p : e \in RootTree07}
   IN [q \in dirs \cup files \cup inroot |->
         IF q \in dirs THEN DirN
         ELSE IF q \in inroot THEN (CHOOSE e \in RootTree07 : Root07 \o e.p = q).n
-        ELSE IF q = SbxP \o <<InfoPfx \o RootN>> THEN InfoN(-1, 5) ELSE FileN(-1)]
+        ELSE IF q = SbxP \o <<InfoPfx \o RootN>> THEN InfoN(-1, 5, TEXT) ELSE FileN(-1)]
 Mem07 == {<<103,117,101,115,116>>, <<97,100,109,105,110>>}
 
 (* ---- C07 requests ---------------------------------------------------------------------------------------------- *)
 NoReq == [kind |-> "none"]
 P0 == {<<>>, <<A>>}
 P1 == {<<s>> : s \in Sigma} \cup {<<A, s>> : s \in Sigma} \cup {<<s, A>> : s \in Sigma} \cup {<<A, A, s>> : s \in Sigma}
-P2 == {<<s, u>> : s \in Sigma, u \in Sigma}
+P2 == {<<s, u>> : s \in Sigma0, u \in Sigma0}
 PathsCore == P0 \cup P1
 PathsFull == PathsCore \cup P2 \cup {<<DotDot, s, A>> : s \in Sigma} \cup {<<s, DotDot, DotDot>> : s \in Sigma}
 Paths == IF Level = "core" THEN PathsCore ELSE PathsFull
@@ -80,7 +94,8 @@ K2Read == {"info", "download", "dlfolder"}
 K2Write == {"newfolder", "delete", "upload"}
 PN == IF Level = "core"
         THEN {<<p, X>> : p \in RawPaths(Paths)} \cup {<<IF p = <<>> THEN Absent ELSE EncPath(p), n>> : p \in P0, n \in Names}
-        ELSE {<<p, n>> : p \in RawPaths(Paths), n \in Names}
+        ELSE {<<p, n>> : p \in RawPaths(Paths), n \in Sigma0 \cup NamesCtx \cup {Absent}}
+             \cup {<<p, n>> : p \in RawPaths(PathsCore), n \in SigmaT \cup SigmaS}
 ReqsK2 == {Rq(k, 1, pn[1], pn[2], Absent, Absent, Absent) : k \in K2Read, pn \in PN}
           \cup {Rq(k, o, pn[1], pn[2], Absent, Absent, Absent) : k \in K2Write, o \in {0, 1}, pn \in PN}
           \cup {Rq("setcomment", o, pn[1], pn[2], Absent, Absent, <<104,105>>) : o \in {0, 1}, pn \in PN}
@@ -95,7 +110,7 @@ ReqsMove == {Rq(k, o, IF p = <<>> THEN Absent ELSE EncPath(p), n, Absent, np, Ab
             \cup {Rq(k, 0, Absent, n, Absent, EncPath(<<A>>), Absent) : k \in {"move", "alias"}, n \in Sigma}
 (* folder upload: one item header with up to three segments *)
 SegSeqs == IF Level = "core" THEN (PathsCore \ {<<>>}) \cup {<<DotDot, s>> : s \in Sigma} \cup {<<DotDot, DotDot, s>> : s \in Sigma}
-           ELSE {<<s>> : s \in Sigma} \cup P2 \cup {<<s, u, v>> : s \in Sigma, u \in Sigma, v \in Sigma}
+           ELSE (PathsCore \ {<<>>}) \cup P2 \cup {<<s, u, v>> : s \in Sigma0, u \in Sigma0, v \in Sigma0}
 SegRaw(sg) == SubSeq(EncPath(sg), 3, Len(EncPath(sg)))
 UpBases == {<<Absent, A>>, <<Absent, DotDot>>} \cup (IF Level = "core" THEN {} ELSE {<<EncPath(<<A>>), Up>>})
 SegSeqsFor(b) == IF b[2] = Up THEN PathsCore \ {<<>>} ELSE SegSeqs
@@ -104,7 +119,7 @@ ReqsUpFolder ==
             : o \in {0, 1}, f \in {0, 1}, sg \in SegSeqsFor(b)} : b \in UpBases}
   \cup {Rq("upfolder", 0, Absent, A, Absent, Absent, Absent) @@ [item |-> [folder |-> f, count |-> c, raw |-> r]]
      : f \in {0, 1}, c \in {1, 2}, r \in {<<0,0,1,102>>, <<0,0,5,102>>, <<0,0>>}}
-AcctLogins == Sigma \cup {A}
+AcctLogins == Sigma0 \cup SigmaT \cup {A, <<46,46,47>> \o UsersBak \o <<47,97,100,109,105,110>>, <<46,46,47>> \o UsersX \o <<47,97>>}
 AcctSeqs(L) == { << [op |-> "create350", login |-> L, new |-> <<>>] >>,
                  << [op |-> "create349", login |-> L, new |-> <<>>] >>,
                  << [op |-> "create350", login |-> L, new |-> <<>>], [op |-> "update", login |-> L, new |-> <<>>] >>,
@@ -117,7 +132,8 @@ ReqsAcct == {Rq("acct", o, Absent, Absent, Absent, Absent, Absent) @@ [ops |-> s
 Reqs07 == ReqsList \cup ReqsK2 \cup ReqsRename \cup ReqsMove \cup ReqsUpFolder \cup ReqsAcct
 
 (* the places a leaving path would land on, occupied in sandbox variant occ = 1 *)
-Landing == {SbxP \o <<X>>, SbxP \o <<<<97,98,115>>>>, SbxP \o <<Config, X \o Yaml>>, <<L1, L2, L3, X>>, <<L1, L2, X>>}
+Landing == {SbxP \o <<X>>, SbxP \o <<<<97,98,115>>>>, SbxP \o <<Config, X \o Yaml>>, <<L1, L2, L3, X>>, <<L1, L2, X>>,
+            SbxP \o <<RootBak, <<110>>>>, SbxP \o <<Config, UsersX, A \o Yaml>>}
 TreeOcc(o) == IF o = 0 THEN Tree07 ELSE [q \in DOMAIN Tree07 \cup Landing |-> IF q \in Landing THEN FileN(-1) ELSE Tree07[q]]
 
 RECURSIVE SetToSeq(_)
@@ -126,7 +142,7 @@ SetToSeq(S) == IF S = {} THEN <<>> ELSE LET x == CHOOSE y \in S : TRUE IN <<x>> 
 WorldJson(T, rp, ign) ==
   [tree |-> SetToSeq({[p |-> SubSeq(q, Len(rp) + 1, Len(q)),
                        k |-> IF T[q].k = "dir" THEN "dir" ELSE IF HasPrefix(Base(q), InfoPfx) THEN "info" ELSE "file",
-                       s |-> T[q].s, c |-> T[q].c] : q \in {x \in DOMAIN T : Inside(x, rp) /\ x # rp}}),
+                       s |-> T[q].s, c |-> T[q].c, ty |-> T[q].ty] : q \in {x \in DOMAIN T : Inside(x, rp) /\ x # rp}}),
    ignore |-> ign]
 
 Init07 == /\ tree = Tree07 /\ rootp = Root07 /\ usersp = Users07 /\ ignore = "default" /\ mem = Mem07
@@ -147,16 +163,18 @@ Emit07 == PrintT("B " \o ToJson(req'))
 
 (* ---- C11 ------------------------------------------------------------------------------------------------------- *)
 Root11 == <<RootN>>
+NPdf == <<114>> \o PdfExt
 NC == <<99>>  NHid == <<46,104,105,100>>  NAt == <<64,120>>  NInc == <<120>> \o Incomplete \o <<46,121>>  NHi == <<138>>
 PInc == <<112>> \o Incomplete
 D1 == <<100>>
 InitTrees == <<
-  {[p |-> <<A>>, n |-> DirN], [p |-> <<A, NC>>, n |-> FileN(4)], [p |-> <<InfoPfx \o A>>, n |-> InfoN(77, 2)],
-   [p |-> <<Btxt>>, n |-> FileN(5)], [p |-> <<InfoPfx \o Btxt>>, n |-> InfoN(82, 3)], [p |-> <<RsrcPfx \o Btxt>>, n |-> FileN(7)],
+  {[p |-> <<A>>, n |-> DirN], [p |-> <<A, NC>>, n |-> FileN(4)], [p |-> <<InfoPfx \o A>>, n |-> InfoN(77, 2, Fldr)],
+   [p |-> <<Btxt>>, n |-> FileN(5)], [p |-> <<InfoPfx \o Btxt>>, n |-> InfoN(82, 3, TEXT)], [p |-> <<RsrcPfx \o Btxt>>, n |-> FileN(7)],
    [p |-> <<NC>>, n |-> FileN(1)], [p |-> <<NHid>>, n |-> FileN(2)], [p |-> <<NAt>>, n |-> FileN(6)],
    [p |-> <<NInc>>, n |-> FileN(10)], [p |-> <<PInc>>, n |-> FileN(9)], [p |-> <<Ae>>, n |-> FileN(8)]},
-  {[p |-> <<D1>>, n |-> DirN], [p |-> <<D1, Btxt>>, n |-> FileN(5)], [p |-> <<A>>, n |-> FileN(3)], [p |-> <<InfoPfx \o A>>, n |-> InfoN(78, 3)],
-   [p |-> <<Ae>>, n |-> DirN], [p |-> <<Ae, NInc>>, n |-> FileN(10)]},
+  {[p |-> <<D1>>, n |-> DirN], [p |-> <<D1, Btxt>>, n |-> FileN(5)], [p |-> <<A>>, n |-> FileN(3)], [p |-> <<InfoPfx \o A>>, n |-> InfoN(78, 3, TEXT)],
+   [p |-> <<Ae>>, n |-> DirN], [p |-> <<Ae, NInc>>, n |-> FileN(10)],
+   [p |-> <<NC>>, n |-> FileN(1)], [p |-> <<InfoPfx \o NC>>, n |-> InfoN(77, 2, PDF)]},   \* a stored type that is not the extension's default
   {[p |-> <<A>>, n |-> DirN], [p |-> <<A, A>>, n |-> DirN], [p |-> <<A, A, NC>>, n |-> FileN(4)], [p |-> <<NC>>, n |-> FileN(1)],
    [p |-> <<RsrcPfx \o NC>>, n |-> FileN(7)], [p |-> <<NHid>>, n |-> DirN], [p |-> <<NHid, Btxt>>, n |-> FileN(5)], [p |-> <<PInc>>, n |-> FileN(9)]} >>
 TreeFrom(S) == [q \in {Root11} \cup {Root11 \o e.p : e \in S} |-> IF q = Root11 THEN DirN ELSE (CHOOSE e \in S : Root11 \o e.p = q).n]
@@ -168,7 +186,7 @@ Init11 == \E i \in DOMAIN InitTrees, ign \in {"default", "none", "custom"} :
 
 Dirs(t) == {q \in DOMAIN t : t[q].k = "dir" /\ ~ThroughLink(t, q) /\ \A i \in DOMAIN q : Encodable(q[i])}
 WirePath(d) == IF d = Root11 THEN Absent ELSE EncPath([i \in 1..(Len(d) - 1) |-> Enc(d[i + 1])])
-NewNames == IF Thin THEN {NC, NHi, NInc} ELSE {A, Btxt, NC, NHid, NAt, NInc, NHi}
+NewNames == IF Thin THEN {NC, NHi, NInc, NPdf} ELSE {A, Btxt, NC, NHid, NAt, NInc, NHi, NPdf}
 Steps11(t) ==
   UNION {
     LET L == Listing(t, d, ignore, {})
@@ -202,11 +220,12 @@ ListShowsExactly ==
 (* list, get-info and the download reply agree with the bytes on disk for complete fork-less files *)
 InfoSize(t, q) == t[q].s + RsrcSize(t, q)      \* HandleGetFileInfo: TotalSize
 DlSize(t, q) == t[q].s                         \* HandleDownloadFile: data fork size (field 207)
+InfoType(t, q) == TypeOfFile(t, q)             \* HandleGetFileInfo: the type stored in the information fork, else by extension
 ViewsAgreeOnSizeType ==
   \A d \in Dirs(tree) : LET L == Listing(tree, d, ignore, Deviations) IN
      \A q \in DOMAIN L : L[q].cls = "plain" =>
         /\ L[q].sz = tree[q].s /\ InfoSize(tree, q) = tree[q].s /\ DlSize(tree, q) = tree[q].s
-        /\ L[q].ty = TypeOfName(Base(q))
+        /\ L[q].ty = InfoType(tree, q)
 
 LastStep == hist'[Len(hist')]
 ForksTravel == [][ForksTravelObs(LastStep, tree, tree', rootp)]_mcvars
